@@ -217,8 +217,26 @@ def rule_g(repo, chk):
     chk.ob('C18.g', bool(d), g, 'Project._get_sys_path adds the ancestors by default (add_parent_paths=True), hence the explicit False above is needed')
 
 
+def rule_h(repo, chk):
+    chk.clause('C18.h', 'parent()/get_context answers are computed from the name\'s own definition node every time: the per-state memo table '
+                        '(InferenceState.memoize_cache) is touched only by the memo decorators of jedi/inference/cache.py, whose keys contain the '
+                        'object itself - no hand-written key (name text, position) can alias definitions of different modules')
+    n = 0
+    for mod in repo.modules.values():
+        for x in ast.walk(mod.tree):
+            if isinstance(x, ast.Attribute) and x.attr == 'memoize_cache':
+                n += 1
+                ok = mod.name == 'jedi.inference.cache' or (mod.name == 'jedi.inference' and isinstance(x.ctx, ast.Store))
+                chk.ob('C18.h', ok, x, '`%s` in %s: the memo table is used by the memo decorators only' % (short(x), repo.qual_of(x) or mod.name),
+                       'hand-written access to the memo table', key='%s|memoize_cache|%s' % (mod.name, repo.qual_of(x)))
+    chk.floor('C18.h', n, 4, '(accesses to memoize_cache)')
+    f = repo.find('jedi.api.classes', 'BaseName.parent')
+    calls = [c for c in calls_in(f) if call_name(c) in ('setdefault', 'get') and 'cache' in norm(c.func.value)]
+    chk.ob('C18.h', not calls, f, 'BaseName.parent keeps no table of earlier answers', str([short(c) for c in calls]))
+
+
 def describe(chk):
     chk.undecided('the position -> scope mapping over all files (e.g. async def bodies); __qualname__ equality for everything the engine reports')
 
 
-RULES = [('C18.a', rule_a), ('C18.b', rule_b), ('C18.c', rule_c), ('C18.d', rule_d), ('C18.e', rule_e), ('C18.f', rule_f), ('C18.g', rule_g)]
+RULES = [('C18.a', rule_a), ('C18.b', rule_b), ('C18.c', rule_c), ('C18.d', rule_d), ('C18.e', rule_e), ('C18.f', rule_f), ('C18.g', rule_g), ('C18.h', rule_h)]
